@@ -21,6 +21,12 @@ CHECKS = {
    text="For generated templates and functions whose control flow is independent of signals, ports and data parameters (enforced by the generator and re-validated by a static taint analysis), the interpreter is run at s0 + t*delta, t = 0..3, on 3 random lines; for each node bounded by constant/linear/quadratic the (d+1)-th finite difference of its four values must vanish mod p at every dynamic occurrence. CS0013 advice is checked with d = 2 on the right-hand side.",
    note="A polynomial of degree <= d always passes; a higher-degree or non-polynomial expression escapes one line with probability <= D/p (p >= 2^64). Signals keep their witness value when assigned, as the property treats every signal as an independent indeterminate.",
    design="DESIGN.md §3 C07"),
+ "C08": dict(
+   level="exploration",
+   technique="by-construction oracle on generated templates: the generator knows every element-wise `<--`/`-->` assignment and its extent; CS0005/CS0013 findings collected in-process must be in bijection with them, with bounded secondary-label sets (proptest tapes, shrinking)",
+   text="A dedicated generator emits `<--` and `-->` on scalars, array elements (loop-variable and literal indices), component inputs, declaration initialisers, tuple assignments with `_`, tuple declarations and named inputs of anonymous components, at top level and nested up to three levels in loops and branches, mixed with `===`/`<==` statements mentioning the signals; custom templates as negatives. Findings must match the generated assignments one to one by primary-label extent, name the assigned signal, and list exactly constraint statements that mention it (lower bound: identical access; upper bound: mentions the name).",
+   note="CS0005 vs CS0013 is not decided here (that is C07). Files go through parse_files so the desugarer is part of what is checked.",
+   design="DESIGN.md §3 C08"),
  "C09": dict(
    level="exploration",
    technique="metamorphic testing with the reference interpreter: perturb the value stored by each flagged assignment (or parameter) and compare effect traces, on generated programs x valuations x replacement values (proptest tapes, shrinking)",
@@ -33,6 +39,12 @@ CHECKS = {
    text="Definitions with tiny colliding name pools (x, x_0, x_1, …), redeclarations in nested and sibling scopes and in `for` headers, parameters redeclared as locals. The relation 'same IR variable' over all occurrences (located by source span) must equal 'same declaration according to lexical scoping' in both directions, before and after SSA; every SSA read must have a defining statement with the same (name, suffix, version); shadowing warnings must be in bijection with the generated shadowing declarations with exact primary/secondary ranges, and the real CLI must display them at the right line:col; repeated parameters must be reported (in-process and displayed). Sampling with measured class coverage.",
    note="Reference scoping rule: block scoping, parameters outermost, a declaration takes effect before its own initialiser (Circom's rule), `for` = block{init; while(cond){body; step}}. Trusts the span bookkeeping of the generator's printer.",
    design="DESIGN.md §3 C10"),
+ "C11": dict(
+   level="exploration",
+   technique="table-driven enumeration through the real binary: every (curve, template name) pair of the documented table plus near-miss names, every constant size 0..300 in several syntactic forms, every Num2Bits(k) guard of LessThan, all case variants of curve names; plus generated random mixes (proptest tapes, shrinking)",
+   text="Instantiations are placed one per line and findings matched by line. CS0016 must appear exactly for the marked (template, curve) pairs of the documented table (Circomlib spelling), never under BN254 and never for near-miss names; CS0010 under BN254 exactly for sizes that are not literal-arithmetic constants < 254 and never under other curves; CS0014 exactly when no Num2Bits(k) with constant k and 2^k - 1 <= p/2 guards the LessThan input (threshold computed from the reference primes); curve names accepted case-insensitively and nothing else.",
+   note="Exhaustive over the table, the literal sizes 0..300 and k = 0..300 for all three curves; other size forms and surrounding shapes are sampled in the quick tier.",
+   design="DESIGN.md §3 C11"),
  "C12": dict(
    level="exploration",
    technique="property-based testing of a validity predicate: generated definitions (control-flow grammar, proptest tapes with shrinking) are lifted with into_cfg/into_ssa and the well-formedness invariants are evaluated through the public accessors, with reference dominators and generator-side loop nesting as oracles",
@@ -87,6 +99,12 @@ CHECKS = {
    text="For generated multi-file projects: repeated runs must give identical findings including positions; reversing the order of the named files must give identical findings; permuting the definitions of every file must give the same findings modulo positions (rule id, level, normalised message, normalised text under every label); inserting an unreferenced template and function must leave all other findings unchanged while the inserted definitions get their own.",
    note="Hash-map iteration orders are sampled by repeated processes (5 quick / 20 thorough per project), not enumerated.",
    design="DESIGN.md §3 C17"),
+ "C18": dict(
+   level="translation_validation",
+   technique="(a) own AST walker over parse_files output of generated `wild` programs (sugar in every position) checking completeness/rejection and panic-freedom downstream; (b) differential testing of generated sugared templates against generator-written expansions, comparing finding multisets (proptest tapes, shrinking)",
+   text="Completeness: no tuple, anonymous component or multi-substitution may remain in any template handed to the analysis; functions containing sugar must be absent with a TAC01/TAC02 error; dropped templates must come with such an error; lifting, SSA and all passes on the rest must not panic. Faithfulness: for 12 sugar forms (tuple assignments and declarations, nested tuples, positional/named/parallel/multi-output/statement anonymous components, anonymous components inside tuples) the findings of the sugared template equal those of the hand-written expansion defined in the property, as multisets of (id, message and label messages with component names normalised); weaker containment relation inside loops.",
+   note="Pairs whose expansion is rejected are discarded. Loop positions use the weaker relation because the explicit Circom form of per-iteration components differs across 2.0.0-2.1.4.",
+   design="DESIGN.md §3 C18"),
  "C19": dict(
    level="exploration",
    technique="model-based testing: generated include graphs on a materialised directory tree, real binary run with the parser's debug log, compared with a reference include resolver (proptest tapes, shrinking)",
